@@ -98,21 +98,33 @@ theorem runV_once (t : RT) (vs : List (Nat × Bool)) (h : Heap) (i : Nat) (b : B
         have hg : Heap.get (stepV t h v) i = Heap.get h i := get_modify_ne _ _ _ _ hne
         rw [hg]
 
-/-! ### the tree keeps its shape, except for `Operation.mirror` -/
+/-! ### the tree keeps its shape, except for `Operation.mirror` (and the invalidated caches) -/
 
 mutual
-theorem applyE_tree (t : RT) (ht : t.isMirror = false) : ∀ (e : Ent) (h : Heap), (applyE t e h).1 = e
-  | .pt i, h => by simp [applyE]
-  | .dir i, h => by simp [applyE]
-  | .arr is, h => by simp [applyE]
+/-- the tree with every cached interpolation function invalidated -/
+def invalidE : Ent → Ent
+  | .pt i => .pt i
+  | .dir i => .dir i
+  | .arr is => .arr is
+  | .node k a ch => .node k (touchAttr k a) (invalidL ch)
+def invalidL : List Ent → List Ent
+  | [] => []
+  | e :: es => invalidE e :: invalidL es
+end
+
+mutual
+theorem applyE_tree (t : RT) (ht : t.isMirror = false) : ∀ (e : Ent) (h : Heap), (applyE t e h).1 = invalidE e
+  | .pt i, h => by simp [applyE, invalidE]
+  | .dir i, h => by simp [applyE, invalidE]
+  | .arr is, h => by simp [applyE, invalidE]
   | .node k a ch, h => by
-      simp only [applyE, ht, Bool.false_and]
+      simp only [applyE, ht, Bool.false_and, invalidE]
       rw [applyL_tree t ht ch h]
       simp
-theorem applyL_tree (t : RT) (ht : t.isMirror = false) : ∀ (es : List Ent) (h : Heap), (applyL t es h).1 = es
-  | [], h => by simp [applyL]
+theorem applyL_tree (t : RT) (ht : t.isMirror = false) : ∀ (es : List Ent) (h : Heap), (applyL t es h).1 = invalidL es
+  | [], h => by simp [applyL, invalidL]
   | e :: es, h => by
-      simp only [applyL]
+      simp only [applyL, invalidL]
       rw [applyE_tree t ht e h, applyL_tree t ht es]
 end
 
